@@ -143,6 +143,29 @@ let spec_step (v : Zar.t array) (t : string array) : string * int =
       | "addp" -> v.(s 1) <- Zar.add v.(s 1) (small_prim t.(2) (z t.(3))); s 1
       | "subp" -> v.(s 1) <- Zar.sub v.(s 1) (small_prim t.(2) (z t.(3))); s 1
       | "mulp" -> v.(s 1) <- Zar.mul v.(s 1) (small_prim t.(2) (z t.(3))); s 1
+      | "ring" ->
+          (* arithmetic modulo |v[b]| through ConstDivisor / Reduced / the Reducer interface *)
+          let kind = t.(1) and d = s 2 and a = s 3 and b = s 4 and e = s 5 in
+          let m = Zar.abs v.(b) in
+          if Zar.leq m Zar.one then raise Pre;
+          let emod x = Zar.erem x m in
+          let inv x = if Zar.equal (Zar.gcd x m) Zar.one then Zar.invert x m else Zar.zero in
+          let sgn x y = if Zar.sign x < 0 then Zar.neg y else y in
+          let r = match kind with
+            | "new" -> v.(b) <- Zar.zero; m
+            | "res" -> emod v.(a)
+            | "mul" -> let x = emod v.(a) and y = emod v.(d) in emod (Zar.sub (Zar.add (Zar.mul x y) x) y)
+            | "inv" -> inv (emod v.(a))
+            | "pow" -> Zar.powm (emod v.(a)) (zi e) m
+            | "rem" -> sgn v.(a) (Zar.rem (Zar.abs v.(a)) m)
+            | "remv" -> let x = v.(a) in v.(a) <- Zar.zero; sgn x (Zar.rem (Zar.abs x) m)
+            | "div" -> sgn v.(a) (Zar.div (Zar.abs v.(a)) m)
+            | "rmul" -> let x = emod (Zar.abs v.(a)) in emod (Zar.mul x (Zar.mul x x))
+            | "rinv" -> inv (emod (Zar.abs v.(a)))
+            | "rpow" -> Zar.powm (emod (Zar.abs v.(a))) (zi e) m
+            | "rneg" -> emod (Zar.neg (Zar.mul (zi 3) (emod (Zar.abs v.(a)))))
+            | other -> failwith ("unknown ring step " ^ other) in
+          v.(d) <- r; d
       | "rt" | "rd" -> s 1
       | other -> failwith ("unknown step " ^ other)
     in
@@ -213,6 +236,9 @@ let model_ops (v : Zar.t array) (t : string array) : op list option =
       let f = match t.(0) with "addp" -> BIAdd | "subp" -> BISub | _ -> BIMul in
       Some [ OCtor (tmp, CDword (sg p, Zar.abs p)); OBin (f, n 1, ByVal (n 1), ByVal tmp) ]
   | "rd" -> Some []
+  | "ring" when t.(1) = "new" ->
+      (* ConstDivisor::new(x) (Buffer::into_boxed_slice), value(), drop *)
+      if Zar.leq (Zar.abs v.(s 4)) Zar.one then Some [] else Some [ ODivisor (n 2, n 4) ]
   | _ -> None
 
 let is_heap cap = abs cap > 2
